@@ -10,7 +10,7 @@ STUBS_COMMON = [
 ]
 
 ARENA_BOUNDS = [
-    "arena: stations s0@A (LEVEL_2, DCFC, gas_pump), s1@B (LEVEL_2, serves base b0); bases b0@B (served by s1), b1@E (no station), b2@F (served by the remote station s0@A); requests r0 C->D, r1 C->F; haversine road network",
+    "arena: stations s0@A (LEVEL_2, DCFC throttled to 30 kW, gas_pump), s1@B (LEVEL_2, serves base b0); bases b0@B (served by s1), b1@E (no station), b2@F (served by the remote station s0@A); requests r0 C->D, r1 C->F; haversine road network",
     "counters (installed / ghost-occupied / ghost-queued plugs, stalls) are unbounded symbolic ints; ghosts stand for any number of unmodelled vehicles",
 ]
 
